@@ -95,6 +95,8 @@ def timestamp_to_sf_struct(ts: pa.Array | pa.ChunkedArray) -> pa.Array:
                 pa.field("fraction", nullable=False, type=pa.int32()),
                 pa.field("timezone", nullable=False, type=pa.int32()),
             ],
+            # a NULL timestamp is a NULL struct, not the epoch
+            mask=ts.is_null(),
         )
     else:
         return pa.StructArray.from_arrays(
@@ -103,4 +105,6 @@ def timestamp_to_sf_struct(ts: pa.Array | pa.ChunkedArray) -> pa.Array:
                 pa.field("epoch", nullable=False, type=pa.int64()),
                 pa.field("fraction", nullable=False, type=pa.int32()),
             ],
+            # a NULL timestamp is a NULL struct, not the epoch
+            mask=ts.is_null(),
         )
